@@ -100,10 +100,10 @@ class FnItem:
 
 
 class Iter:
-    __slots__ = ('sl', 'pos', 'enum')
+    __slots__ = ('sl', 'pos', 'enum', 'by_value')
 
     def __init__(s, sl, enum=False):
-        s.sl, s.pos, s.enum = sl, 0, enum
+        s.sl, s.pos, s.enum, s.by_value = sl, 0, enum, False
 
 
 class HVec:
